@@ -1,6 +1,7 @@
 package main
 
 import (
+	. "digverif/vt"
 	"fmt"
 	"sort"
 )
@@ -245,7 +246,11 @@ func (m *Model) isDoneD(d *Dec) bool {
 
 // may computes the over-approximation of what is allowed to run when the
 // function n is invoked: ids of functions in the closure.
-func (m *Model) may(start node) map[int]bool {
+func (m *Model) may(start node) map[int]bool { return m.mayX(start, false) }
+
+// mayX: nested = computed for a "who may run under this decorator" question; then decorated
+// groups conservatively keep their feeders (no further nesting).
+func (m *Model) mayX(start node, nested bool) map[int]bool {
 	seen := map[int]bool{}
 	q := []node{start}
 	for len(q) > 0 {
@@ -261,6 +266,21 @@ func (m *Model) may(start node) map[int]bool {
 			if p.K.Group != "" {
 				if p.Soft {
 					continue
+				}
+				// a decorated group is delivered from the decoration; the feeders are called for
+				// this consumer only if the decorator is skipped because it is being built,
+				// i.e. the consumer is itself needed by the decorator
+				ds := m.decsOf(n.s, p.K, n.self)
+				if len(ds) > 0 && !nested {
+					under := false
+					for _, d := range ds {
+						if m.mayX(decNode(d), true)[n.f.ID] {
+							under = true
+						}
+					}
+					if !under {
+						continue
+					}
 				}
 				for _, r := range m.feeders(n.s, p.K) {
 					if !seen[r.F.ID] {
